@@ -30,8 +30,11 @@ CheckTrace(tr) ==
       soloBad == IF tr.crash # "" THEN {} ELSE
                  IF Len(tr.solo) # Len(tr.ev) THEN {<<0, "differs-from-alone">>} ELSE
                  {<<k, "differs-from-alone">> : k \in {j \in 1..Len(tr.ev) :
-                      /\ tr.ev[j].call \in DetCalls
-                      /\ (tr.ev[j].ret # tr.solo[j].ret \/ (tr.ev[j].exc # "") # tr.solo[j].failed)}}
+                      \/ /\ tr.ev[j].call \in DetCalls
+                         /\ (tr.ev[j].ret # tr.solo[j].ret \/ (tr.ev[j].exc # "") # tr.solo[j].failed)
+                      \* the annotations a solver's constraints carry after simplify() are its own
+                      \/ /\ tr.ev[j].call = "simplify" /\ tr.ev[j].exc = ""
+                         /\ tr.ev[j].anntags # tr.solo[j].anntags}}
       freshBad == \E a \in 1..Len(tr.fresh) : \E b \in 1..Len(tr.other_fresh) : tr.fresh[a] = tr.other_fresh[b]
   IN res[2] \cup soloBad
             \cup (IF tr.crash = "" /\ freshBad THEN {<<0, "fresh-name-collision">>} ELSE {})
